@@ -198,6 +198,8 @@ theorem openSession_nc : KeepsNC openSession := by
 theorem nc_upd {s s' : St} (h : NC s) (hc : s'.conn = s.conn) (he : s'.encrypted = s.encrypted) : NC s' := by
   unfold NC at *; rw [hc, he]; exact h
 
+theorem armReconnect_nc {s : St} (h : NC s) : NC (armReconnect s) := nc_upd h rfl rfl
+
 theorem handleStart_nc : KeepsNC handleStart := by
   intro s h
   unfold handleStart
@@ -260,9 +262,9 @@ theorem handleStarttls_nc (f : Features) (s : St) (h : NC s) :
         · cases hr; exact ⟨NCout.cons (send_nc h _) NCout.nil, nc_upd h rfl rfl⟩
         · cases hr
 
-theorem handleFeatures_nc (f : Features) (s : St) (h : NC s) :
-    NCout (handleFeatures s f).2 ∧ NC (handleFeatures s f).1 := by
-  unfold handleFeatures
+theorem handleFeaturesOwn_nc (f : Features) (s : St) (h : NC s) :
+    NCout (handleFeaturesOwn s f).2 ∧ NC (handleFeaturesOwn s f).1 := by
+  unfold handleFeaturesOwn
   split
   · rename_i r hr; exact handleStarttls_nc f s h r hr
   · split
@@ -280,6 +282,35 @@ theorem handleFeatures_nc (f : Features) (s : St) (h : NC s) :
             · split
               · exact startSmEnable_nc _ h1
               · exact openSession_nc _ h1
+
+theorem disconnectFromServer_nc (s : St) (h : NC s) :
+    NCout (disconnectFromServer s).2 ∧ NC (disconnectFromServer s).1 := by
+  unfold disconnectFromServer
+  dsimp only
+  have h0 : NC { s with reconnectArmed := false } := nc_upd h rfl rfl
+  split
+  · have r1 := sendStanza_nc .presence _ h0
+    have r2 := disconnectFromHost_nc _ r1.2
+    exact ⟨NCout.append r1.1 r2.1, r2.2⟩
+  · have r2 := disconnectFromHost_nc _ h0
+    exact ⟨NCout.append NCout.nil r2.1, r2.2⟩
+
+theorem registerOnFeatures_nc (f : Features) (s : St) (h : NC s) :
+    NCout (registerOnFeatures s f).2 ∧ NC (registerOnFeatures s f).1 := by
+  unfold registerOnFeatures
+  split
+  · rename_i r hr; exact handleStarttls_nc f s h r hr
+  · split
+    · have r := sendStanza_nc (.register s.regForm) s h
+      exact ⟨r.1, nc_upd r.2 rfl rfl⟩
+    · exact disconnectFromServer_nc s h
+
+theorem handleFeatures_nc (f : Features) (s : St) (h : NC s) :
+    NCout (handleFeatures s f).2 ∧ NC (handleFeatures s f).1 := by
+  unfold handleFeatures
+  split
+  · exact registerOnFeatures_nc f s h
+  · exact handleFeaturesOwn_nc f s h
 
 theorem onSmEnabled_nc (b l : Bool) (s : St) (h : NC s) : NCout (onSmEnabled s b l).2 ∧ NC (onSmEnabled s b l).1 :=
   enableAck_nc _ (nc_upd h rfl rfl)
@@ -334,7 +365,7 @@ theorem starttlsHandle_nc (e : El) (s : St) (h : NC s) : NCout (starttlsHandle s
   unfold starttlsHandle
   split
   · exact handleStart_nc _ (by intro _; rfl)
-  · have hd := onSocketDisconnected_down { s with conn := .disconnected, listener := .idle } rfl
+  · have hd := onSocketDisconnected_down { armReconnect s with conn := .disconnected, listener := .idle } rfl
     exact ⟨NCout.cons (sig_nc _) hd.1, nc_of_not_connected hd.2⟩
   · exact reject_nc s h
 
@@ -483,6 +514,8 @@ theorem sendIq_nc (s : St) (h : NC s) : NCout (sendIq s).2 ∧ NC (sendIq s).1 :
 
 macro "cfg_crush" : tactic => `(tactic| ((repeat' split) <;> simp))
 
+@[simp] theorem armReconnect_cfg (s : St) : (armReconnect s).cfg = s.cfg := rfl
+
 @[simp] theorem sendStanza_cfg (s : St) (k : Kind) : (sendStanza s k).1.cfg = s.cfg := by
   unfold sendStanza; split <;> rfl
 @[simp] theorem enableAck_cfg (s : St) : (enableAck s).1.cfg = s.cfg := rfl
@@ -517,8 +550,8 @@ theorem handleStarttls_cfg (s : St) (f : Features) : ∀ r, handleStarttls s f =
   unfold handleStarttls at hr
   repeat' split at hr
   all_goals first | (cases hr; done) | (cases hr; simp)
-@[simp] theorem handleFeatures_cfg (s : St) (f : Features) : (handleFeatures s f).1.cfg = s.cfg := by
-  unfold handleFeatures
+@[simp] theorem handleFeaturesOwn_cfg (s : St) (f : Features) : (handleFeaturesOwn s f).1.cfg = s.cfg := by
+  unfold handleFeaturesOwn
   split
   · rename_i r hr; exact handleStarttls_cfg s f r hr
   · split
@@ -529,6 +562,15 @@ theorem handleStarttls_cfg (s : St) (f : Features) : ∀ r, handleStarttls s f =
         · simp
         · dsimp only
           cfg_crush
+@[simp] theorem disconnectFromServer_cfg (s : St) : (disconnectFromServer s).1.cfg = s.cfg := by
+  unfold disconnectFromServer; dsimp only; split <;> simp
+@[simp] theorem registerOnFeatures_cfg (s : St) (f : Features) : (registerOnFeatures s f).1.cfg = s.cfg := by
+  unfold registerOnFeatures
+  split
+  · rename_i r hr; exact handleStarttls_cfg s f r hr
+  · split <;> simp
+@[simp] theorem handleFeatures_cfg (s : St) (f : Features) : (handleFeatures s f).1.cfg = s.cfg := by
+  unfold handleFeatures; split <;> simp
 @[simp] theorem onSmEnabled_cfg (s : St) (b l : Bool) : (onSmEnabled s b l).1.cfg = s.cfg := rfl
 @[simp] theorem onSmResumed_cfg (s : St) : (onSmResumed s).1.cfg = s.cfg := rfl
 @[simp] theorem idleHandle'_cfg (s : St) (e : El) : (idleHandle' s e).1.cfg = s.cfg := by
@@ -557,6 +599,10 @@ theorem handleStarttls_cfg (s : St) (f : Features) : ∀ r, handleStarttls s f =
   unfold dispatch; split <;> simp
 @[simp] theorem recv_cfg (s : St) (e : El) : (recv s e).1.cfg = s.cfg := by
   unfold recv; cfg_crush
+@[simp] theorem socketGone_cfg (s : St) : (socketGone s).1.cfg = s.cfg := by
+  unfold socketGone; cfg_crush
+@[simp] theorem connectTo_cfg (s : St) : (connectTo s).1.cfg = s.cfg := by
+  unfold connectTo; simp
 @[simp] theorem sendPing_cfg (s : St) : (sendPing s).1.cfg = s.cfg := by
   unfold sendPing; split <;> rfl
 @[simp] theorem sendIq_cfg (s : St) : (sendIq s).1.cfg = s.cfg := by
@@ -576,11 +622,11 @@ def PreTls (s : St) : Prop := s.listener = .idle ∨ s.listener = .starttls
 /-- invariant: either nothing can reach the wire in clear, or negotiation has not gone past STARTTLS -/
 def Inv (s : St) : Prop := NC s ∨ PreTls s
 
-/-- **Scope of the property (application side)**: the application itself does not send requests over an unencrypted link and
-calls `connectToServer` only while disconnected (the property quantifies over servers, not over applications) -/
+/-- **Scope of the property (application side)**: the application itself does not send requests over an unencrypted link
+(the property quantifies over servers, not over applications).  Nothing is assumed about `connectToServer` any more: since
+6235115 a connect on a live socket aborts the old connection first. -/
 def appWaits (s : St) : Ev → Prop
   | .sendIq => NC s
-  | .connectToServer => s.conn = .disconnected
   | _ => True
 
 /-- a predicate holds at every step of a run -/
@@ -631,6 +677,18 @@ theorem handleStarttls_required (s : St) (f : Features) (hreq : s.cfg.tls = .req
     · simp [ha, hl]
     · simp [ha, hl]
 
+/-- with TLS required and the link unencrypted a features element leads to `<starttls/>` or to giving up — whoever consumes it
+(the client itself, or the registration manager, which calls the client's `handleStarttls` first) -/
+theorem features_preTls (s : St) (f : Features) (hreq : s.cfg.tls = .required) (he : s.encrypted = false) :
+    handleFeatures s f = disconnectFromHost s ∨
+    handleFeatures s f = ({ s with listener := .starttls }, [send s .startTls]) := by
+  unfold handleFeatures
+  split
+  · unfold registerOnFeatures
+    rcases handleStarttls_required s f hreq he with h | h <;> rw [h] <;> simp
+  · unfold handleFeaturesOwn
+    rcases handleStarttls_required s f hreq he with h | h <;> rw [h] <;> simp
+
 theorem idle_clear (s : St) (e : El) (hreq : s.cfg.tls = .required) (hc : s.conn = .connected)
     (he : s.encrypted = false) (hl : s.listener = .idle) :
     (∀ o ∈ (idleHandle s e).2, o.clearOk) ∧ Inv (idleHandle s e).1 := by
@@ -657,8 +715,7 @@ theorem idle_clear (s : St) (e : El) (hreq : s.cfg.tls = .required) (hc : s.conn
       split
       · -- features
         rename_i f _ _ _ _
-        unfold handleFeatures
-        rcases handleStarttls_required s f hreq he with h | h
+        rcases features_preTls s f hreq he with h | h
         · rw [h]
           have := disconnectFromHost_connected s hc
           exact ⟨this.1, Or.inl this.2⟩
@@ -688,10 +745,25 @@ theorem starttls_clear (s : St) (e : El) (hc : s.conn = .connected) :
   split
   · have := handleStart_nc { s with encrypted := true, headerSeen := false, listener := .idle } (by intro _; rfl)
     exact ⟨allOk_of_NCout this.1, Or.inl this.2⟩
-  · have hd := onSocketDisconnected_down { s with conn := .disconnected, listener := .idle } rfl
+  · have hd := onSocketDisconnected_down { armReconnect s with conn := .disconnected, listener := .idle } rfl
     exact ⟨allOk_of_NCout (NCout.cons (sig_nc _) hd.1), Or.inl (nc_of_not_connected hd.2)⟩
   · have := reject_connected s hc
     exact ⟨this.1, Or.inl this.2⟩
+
+/-- losing (or aborting) the connection writes nothing and leaves no connected socket -/
+theorem socketGone_down (s : St) : NCout (socketGone s).2 ∧ (socketGone s).1.conn ≠ .connected := by
+  unfold socketGone
+  split
+  · exact onSocketDisconnected_down { s with conn := .disconnected } rfl
+  · split
+    · exact ⟨NCout.nil, by simp⟩
+    · rename_i h1 _
+      exact ⟨NCout.nil, h1⟩
+
+/-- `connectToHost()` in ANY state: nothing goes over a clear link, and afterwards the socket is not connected -/
+theorem connectTo_nc (s : St) : NCout (connectTo s).2 ∧ NC (connectTo s).1 := by
+  unfold connectTo
+  exact ⟨(socketGone_down s).1, nc_of_not_connected (by simp)⟩
 
 /-- one step keeps the invariant and sends nothing but stream open / starttls / stream close in clear -/
 theorem step_safe (s : St) (e : Ev) (hreq : s.cfg.tls = .required) (hinv : Inv s)
@@ -701,9 +773,19 @@ theorem step_safe (s : St) (e : Ev) (hreq : s.cfg.tls = .required) (hinv : Inv s
   · -- nothing can be clear, except the stream open of a new connection
     cases e with
     | connectToServer =>
-      have hd : s.conn = .disconnected := h3
-      simp only [step, hd, if_true]
-      exact ⟨nil_ok, Or.inl (nc_of_not_connected (by simp))⟩
+      have := connectTo_nc s
+      exact ⟨allOk_of_NCout this.1, Or.inl this.2⟩
+    | tlsCloseNotify =>
+      simp only [step]
+      split
+      · exact ⟨sig_ok _, Or.inl (armReconnect_nc hnc)⟩
+      · exact ⟨nil_ok, Or.inl hnc⟩
+    | reconnectTick =>
+      simp only [step]
+      split
+      · have := connectTo_nc { s with reconnectArmed := false }
+        exact ⟨allOk_of_NCout this.1, Or.inl this.2⟩
+      · exact ⟨nil_ok, Or.inl hnc⟩
     | socketConnected =>
       simp only [step]
       split
@@ -714,15 +796,10 @@ theorem step_safe (s : St) (e : Ev) (hreq : s.cfg.tls = .required) (hinv : Inv s
         exact send_preTls_ok _ _ rfl
       · exact ⟨nil_ok, Or.inl hnc⟩
     | socketError =>
-      exact ⟨sig_ok _, Or.inl hnc⟩
+      exact ⟨sig_ok _, Or.inl (armReconnect_nc hnc)⟩
     | socketDisconnected =>
-      simp only [step]
-      split
-      · have hd := onSocketDisconnected_down { s with conn := .disconnected } rfl
-        exact ⟨allOk_of_NCout hd.1, Or.inl (nc_of_not_connected hd.2)⟩
-      · split
-        · exact ⟨nil_ok, Or.inl (nc_of_not_connected (by simp))⟩
-        · exact ⟨nil_ok, Or.inl hnc⟩
+      have hd := socketGone_down s
+      exact ⟨allOk_of_NCout hd.1, Or.inl (nc_of_not_connected hd.2)⟩
     | recv el =>
       have := recv_nc el s hnc
       exact ⟨allOk_of_NCout this.1, Or.inl this.2⟩
@@ -759,16 +836,25 @@ theorem step_safe (s : St) (e : Ev) (hreq : s.cfg.tls = .required) (hinv : Inv s
       · exact h
     cases e with
     | connectToServer =>
-      have hd : s.conn = .disconnected := h3
-      rw [hc] at hd; cases hd
+      have := connectTo_nc s
+      exact ⟨allOk_of_NCout this.1, Or.inl this.2⟩
+    | tlsCloseNotify =>
+      have e : step s .tlsCloseNotify = (s, []) := by simp [step, he]
+      rw [e]
+      exact ⟨nil_ok, Or.inr hpre⟩
+    | reconnectTick =>
+      simp only [step]
+      split
+      · have := connectTo_nc { s with reconnectArmed := false }
+        exact ⟨allOk_of_NCout this.1, Or.inl this.2⟩
+      · exact ⟨nil_ok, Or.inr hpre⟩
     | socketConnected =>
       simp only [step, hc]
       exact ⟨nil_ok, Or.inr hpre⟩
     | socketError =>
       exact ⟨sig_ok _, Or.inr hpre⟩
     | socketDisconnected =>
-      simp only [step, hc, if_true]
-      have hd := onSocketDisconnected_down { s with conn := .disconnected } rfl
+      have hd := socketGone_down s
       exact ⟨allOk_of_NCout hd.1, Or.inl (nc_of_not_connected hd.2)⟩
     | sendIq => exact absurd h3 hnc
     | recvWhitespace => exact ⟨nil_ok, Or.inr hpre⟩
@@ -902,8 +988,8 @@ theorem handleStarttls_red (s : St) (f : Features) (h : s.redirect = false) :
   unfold handleStarttls at hr
   repeat' split at hr
   all_goals first | (cases hr; done) | (cases hr; first | exact disconnectFromHost_red s h | exact h)
-theorem handleFeatures_red (s : St) (f : Features) (h : s.redirect = false) : (handleFeatures s f).1.redirect = false := by
-  unfold handleFeatures
+theorem handleFeaturesOwn_red (s : St) (f : Features) (h : s.redirect = false) : (handleFeaturesOwn s f).1.redirect = false := by
+  unfold handleFeaturesOwn
   split
   · rename_i r hr; exact handleStarttls_red s f h r hr
   · split
@@ -920,6 +1006,24 @@ theorem handleFeatures_red (s : St) (f : Features) (h : s.redirect = false) : (h
             · split
               · exact h
               · exact openSession_red _ h
+theorem disconnectFromServer_red (s : St) (h : s.redirect = false) : (disconnectFromServer s).1.redirect = false := by
+  unfold disconnectFromServer
+  dsimp only
+  split
+  · exact disconnectFromHost_red _ (sendStanza_red _ _ h)
+  · exact disconnectFromHost_red _ h
+theorem registerOnFeatures_red (s : St) (f : Features) (h : s.redirect = false) : (registerOnFeatures s f).1.redirect = false := by
+  unfold registerOnFeatures
+  split
+  · rename_i r hr; exact handleStarttls_red s f h r hr
+  · split
+    · exact sendStanza_red _ _ h
+    · exact disconnectFromServer_red s h
+theorem handleFeatures_red (s : St) (f : Features) (h : s.redirect = false) : (handleFeatures s f).1.redirect = false := by
+  unfold handleFeatures
+  split
+  · exact registerOnFeatures_red s f h
+  · exact handleFeaturesOwn_red s f h
 theorem onSmEnabled_red (s : St) (b l : Bool) (h : s.redirect = false) : (onSmEnabled s b l).1.redirect = false := h
 theorem onSmResumed_red (s : St) (h : s.redirect = false) : (onSmResumed s).1.redirect = false := h
 
@@ -1081,16 +1185,22 @@ theorem sendIq_red (s : St) (h : s.redirect = false) : (sendIq s).1.redirect = f
   split
   · exact sendStanza_red _ _ h
   · exact sendStanza_red _ _ h
+theorem socketGone_red (s : St) (h : s.redirect = false) : (socketGone s).1.redirect = false := by
+  unfold socketGone
+  split
+  · exact onSocketDisconnected_red _
+  · split <;> exact h
+theorem connectTo_red (s : St) (h : s.redirect = false) : (connectTo s).1.redirect = false := socketGone_red s h
 theorem step_red (s : St) (e : Ev) (h : s.redirect = false) : (step s e).1.redirect = false := by
   cases e with
-  | connectToServer => simp only [step]; split <;> exact h
+  | connectToServer => exact connectTo_red s h
+  | tlsCloseNotify => simp only [step]; split <;> exact h
+  | reconnectTick => simp only [step]; split
+                     · exact connectTo_red _ h
+                     · exact h
   | socketConnected => simp only [step]; split <;> exact h
   | socketError => exact h
-  | socketDisconnected =>
-    simp only [step]
-    split
-    · exact onSocketDisconnected_red _
-    · split <;> exact h
+  | socketDisconnected => exact socketGone_red s h
   | recv el => exact recv_red s el h
   | sendIq => exact sendIq_red s h
   | recvWhitespace => exact h
@@ -1119,7 +1229,8 @@ theorem tls_unavailable_core (s : St) (f : Features) (hreq : s.cfg.tls = .requir
     · simp [hf]
     · by_cases ha : f.tls = .absent <;> simp [ha, hf]
   have hr : step s (.recv (.features f)) = disconnectFromHost s := by
-    simp only [step, recv, hc, hw, hh, dispatch, hl, idleHandle, idleGuarded, El.isStreamLevel, St.preTls, idleHandle', handleFeatures, hst]
+    simp only [step, recv, hc, hw, hh, dispatch, hl, idleHandle, idleGuarded, El.isStreamLevel, St.preTls, idleHandle', handleFeatures, handleFeaturesOwn,
+      registerOnFeatures, hst]
     simp
   rw [hr]
   simp [disconnectFromHost, socketClose, onSocketDisconnected, closeSession, hc, hred, send, link, he]
